@@ -2,7 +2,7 @@
    Model/Relabel.v is a hand-written executable model of relabeling.py over Lib/Fl64.v (binary64 as exact
    integer arithmetic); it is compared bit for bit with the implementation on every run.  Statements only;
    proofs are in Proofs/Fl64_proofs.v, Sort_by_proofs.v, Relabel_check_proofs.v, Relabel_ungroup_proofs.v,
-   Relabel_total_proofs.v, Relabel_mono_proofs.v.
+   Relabel_total_proofs.v, Fl64_mono_proofs.v, Relabel_plain_proofs.v, Relabel_plain2_proofs.v.
 
    [Spec orig keys adj ins] is the property's postcondition for one call (Model/Relabel.v): adjustments name
    existing rows once each with finite values; existing rows keep their order (strictly where they were
@@ -12,8 +12,9 @@
 From Coq Require Import ZArith List Bool Sorted.
 Import ListNotations.
 Require Import Grist.Lib.Fl64 Grist.Model.Relabel.
-Require Import Grist.Proofs.Fl64_proofs Grist.Proofs.Relabel_check_proofs Grist.Proofs.Relabel_ungroup_proofs
-               Grist.Proofs.Relabel_total_proofs.
+Require Import Grist.Proofs.Fl64_proofs Grist.Proofs.Fl64_mono_proofs Grist.Proofs.Relabel_check_proofs
+               Grist.Proofs.Relabel_ungroup_proofs Grist.Proofs.Relabel_total_proofs
+               Grist.Proofs.Relabel_plain_proofs Grist.Proofs.Relabel_plain2_proofs.
 Open Scope Z_scope.
 
 (* ---- 1. the certified checker: for ALL inputs and ALL candidate results, acceptance implies the
@@ -127,6 +128,28 @@ Theorem C20_total_append_partial : forall orig keys b,
   prepare_inserts_model orig keys = Ok ([], ungroup keys news) /\ Spec orig keys [] (ungroup keys news).
 Proof. intros. apply total_append; assumption. Qed.
 
+(* (ii) The whole path without renumbering, from the implementation's own dynamic test: if for every group the
+   neighbours are valid (begin >= 0, end > 0, finite, begin < end) and is_valid_range accepts get_range(begin,
+   end, count) -- which is what prep_inserts_at_index checks before it returns without touching anything --
+   then for ALL such inputs the model raises nothing, adjusts nothing, returns the concatenated ranges in
+   request order, and Spec holds.  (Uses: rounding is monotone, so get_range is weakly increasing and lies
+   in [begin, prevfloat(end)]; "no two neighbours equal" then makes it strictly increasing.)
+   [wf_fl]: the existing positions are doubles (true of everything decode produces). *)
+Theorem C20_total_no_renumbering_partial : forall orig keys,
+  Pre orig keys -> Forall wf_fl orig -> lenZ keys + 1 < 2 ^ 53 -> plain_path orig keys = true ->
+  prepare_inserts_model orig keys = Ok ([], ungroup keys (plain_result orig keys)) /\
+  Spec orig keys [] (ungroup keys (plain_result orig keys)).
+Proof. exact total_plain. Qed.
+
+(* the arithmetic behind it, for all doubles: rounding to nearest-even is monotone, and prevfloat(u) is the
+   largest double below u *)
+Theorem C20_rounding_monotone : forall n1 n2 s, 0 <= s -> 0 <= n1 <= n2 ->
+  ford (round_p2 false n1 s) <= ford (round_p2 false n2 s).
+Proof. exact round_p2_mono. Qed.
+Theorem C20_prevfloat_largest_below : forall u v, 0 < u -> 0 <= v < u -> v mod 2 ^ ulp_exp v = 0 ->
+  v <= upred u /\ upred u < u.
+Proof. intros u v Hu Hv Hd. split; [apply upred_max; assumption | apply upred_lt; assumption]. Qed.
+
 (* ---- non-vacuity *)
 Definition d (b : Z) : fl := decode b.
 Definition f1 := d 4607182418800017408.   (* 1.0 *)
@@ -151,6 +174,15 @@ Proof.
   intros x k Hx Hk. cbn in Hx, Hk.
   repeat (destruct Hx as [<-|Hx]; [repeat (destruct Hk as [<-|Hk]; [vm_compute; reflexivity|]); destruct Hk|]).
   destruct Hx.
+Qed.
+
+Example C20_no_renumbering_nonvacuous :
+  let orig := [f1; f2; f3] in let keys := [f2; f2; d 4602678819172646912; FInf false; nextfloat f2] in  (* 2, 2, 0.5, inf, 2+ulp *)
+  Pre orig keys /\ Forall wf_fl orig /\ plain_path orig keys = true /\ length (plain_result orig keys) = 5%nat.
+Proof.
+  cbv zeta. split; [apply check_pre_sound; vm_compute; reflexivity|].
+  split; [repeat (constructor; [apply wf_flb_sound; vm_compute; reflexivity|]); constructor|].
+  split; vm_compute; reflexivity.
 Qed.
 
 Example C20_history_nonvacuous :
